@@ -95,6 +95,25 @@ def make_touch(rnd, st, a, universe, has_wb, targets, allowed_unbounded):
     return {'path': 'cell', 'a': a}
 
 
+def falsy_edge(rnd, spec):
+    """where the last used row or column of a sheet holds constants only, make them values that
+    are 'nothing' to a careless test (0, 0.0, FALSE): they still belong to the used area"""
+    changed = []
+    by_sheet = {}
+    for c in spec['cells']:
+        sheet, coord = wbgen.split_addr(c['a'])
+        by_sheet.setdefault(sheet, []).append((wbgen.coord_rc(coord), c))
+    for sheet, cells in sorted(by_sheet.items()):
+        for axis in (0, 1):
+            last = max(rc[axis] for rc, _ in cells)
+            line = [c for rc, c in cells if rc[axis] == last]
+            if line and all('f' not in c and 'cse' not in c for c in line) and rnd.random() < 0.7:
+                for c in line:
+                    c['v'] = rnd.choice((0, 0, 0.0, False))
+                    changed.append(c['a'])
+    return changed
+
+
 def gen_case(rnd, tier, index):
     group = index // len(PERMS)
     perm = PERMS[index % len(PERMS)]
@@ -108,6 +127,7 @@ def gen_case(rnd, tier, index):
         # (inside / outside an array formula, the cell they stand in)
         knobs.update(boost=0.15, p_cse=0.3, cse=True, ranges=True, iferr=True, gadget=0.6)
     spec = wbgen.generate(wrnd, knobs)
+    edge = falsy_edge(wrnd, spec) if wrnd.random() < 0.35 else []
     dag = wbgen.Dag(spec)
     origin = wrnd.choice(('nodata', 'nodata', 'xlsx', 'xlsx', 'yml', 'json', 'pkl'))
     cfg = {'origin': origin, 'group': group, 'perm': list(perm)}
@@ -154,6 +174,10 @@ def gen_case(rnd, tier, index):
         g = [a for a in spec['gadget'] if a in cand]
         wrnd.shuffle(g)
         targets = (g[:3] + [t for t in targets if t not in g])[:N_TARGETS]
+    if edge and wrnd.random() < 0.85:
+        e = [a for a in edge if a in cand]
+        wrnd.shuffle(e)
+        targets = (e[:2] + [t for t in targets if t not in e])[:N_TARGETS]
     rest = [a for a in cand if a not in targets]
     wrnd.shuffle(rest)
     targets += rest[:N_TARGETS - len(targets)]
